@@ -627,6 +627,24 @@ func c14r2(c *Ctx) {
 						v, isC := constInt(retval(r, 0))
 						cases = append(cases, scase{v, isC, func(pred func(Fact) bool) bool { _, ok := sub.CutAt(r, pred, nil); return ok }, fmt.Sprintf("%s returns %s", sc.Name(), sub.Term(retval(r, 0)))})
 					}
+				} else if ph, ok := x.Val.(*ssa.Phi); ok {
+					// `sign := 0; if a.Sign() < 0 { sign = 1 }; buf[0] = sign`: one case per incoming constant, under what holds on that edge
+					for k2, ed := range ph.Edges {
+						pb, blk := ph.Block().Preds[k2], ph.Block()
+						v, isC := constInt(ed)
+						cases = append(cases, scase{v, isC, func(pred func(Fact) bool) bool {
+							for _, f := range me.EdgeFacts()[edge{pb, blk}] {
+								if sat(pred, f) {
+									return true
+								}
+							}
+							if len(pb.Instrs) > 0 {
+								_, ok := me.CutAt(pb.Instrs[len(pb.Instrs)-1], pred, nil)
+								return ok
+							}
+							return false
+						}, fmt.Sprintf("%s (from b%d)", me.Term(ed), pb.Index)})
+					}
 				} else {
 					cases = append(cases, scase{0, false, func(func(Fact) bool) bool { return false }, me.Term(x.Val)})
 				}
